@@ -386,9 +386,11 @@ Section TREE.
     intros H. apply filter_In in H. destruct H as [_ E]. destruct (key_eqb_spec (t_ns t) k); congruence.
   Qed.
 
+  Variable ek : str -> str.     (* eqkey of Namespace.__eq__ (skip test of the BFS) *)
+
   (* the BFS invariant; `visited` is the (ghost) list of namespaces already popped *)
   Lemma bfs_inv :
-    TFULL -> ns_inj strop types -> one_root r types ->
+    TFULL -> ns_inj ek types -> one_root r types ->
     forall self t, In self (keys s) -> In t types -> self <> t_ns t ->
     forall fuel visited queue,
       NoDup (visited ++ queue) ->
@@ -396,7 +398,7 @@ Section TREE.
       (forall c, In c (visited ++ queue) -> c = [r] \/ exists p, parent_of c = Some p /\ In p visited) ->
       (exists a, In a queue /\ under a (t_ns t)) ->
       (length s < fuel + length visited)%nat ->
-      bfs strop cperm fuel s queue self t = Some (opath t).
+      bfs ek cperm fuel s queue self t = Some (opath t).
   Proof.
     intros F Hinj Hr self t Hself Ht Hne. pose proof (tf_ok _ _ _ _ _ _ F) as T.
     pose proof (tns_key T Hr t Ht) as Htk.
@@ -412,7 +414,7 @@ Section TREE.
       assert (HL : forall c, In c L -> In c (keys s) /\ parent_of c = Some h).
       { intros c Hc. unfold L in Hc. apply (proj1 (cperm_in _ _)) in Hc.
         exact (tk_child_sound _ _ _ _ _ _ T _ _ _ Hg Hc). }
-      assert (Hcont : h <> t_ns t -> bfs strop cperm f s (q ++ L) self t = Some (opath t)).
+      assert (Hcont : h <> t_ns t -> bfs ek cperm f s (q ++ L) self t = Some (opath t)).
       { intros Hh.
         assert (E : (visited ++ [h]) ++ q ++ L = (visited ++ h :: q) ++ L)
           by (rewrite <- !app_assoc; reflexivity).
@@ -445,7 +447,7 @@ Section TREE.
               [apply (tk_keys _ _ _ _ _ _ T); assumption | lia].
           + exists a. split; [apply in_or_app; left; assumption | assumption].
         - rewrite app_length. cbn [length]. lia. }
-      destruct (ns_eqb strop h self) eqn:Esk.
+      destruct (ns_eqb ek h self) eqn:Esk.
       + apply Hcont. apply ns_eqb_spec in Esk.
         assert (h = self)
           by (apply Hinj; [apply (tk_keys _ _ _ _ _ _ T); assumption
@@ -457,9 +459,9 @@ Section TREE.
   Qed.
 
   Theorem lookup_total :
-    TFULL -> ns_inj strop types -> NoDup types -> one_root r types ->
+    TFULL -> ns_inj ek types -> NoDup types -> one_root r types ->
     forall self t, In self (keys s) -> In t types ->
-    find_output_path strop cperm s self t = Some (out_path strop es ext outdir t).
+    find_output_path ek cperm s self t = Some (out_path strop es ext outdir t).
   Proof.
     intros F Hinj Hnd Hr self t Hself Ht. pose proof (tf_ok _ _ _ _ _ _ F) as T.
     unfold find_output_path. destruct (in_keys_get _ _ Hself) as (n & Hg). rewrite Hg.
